@@ -334,6 +334,15 @@ def apply_op(w, op, index, check=True):
         w.chain.add("unspec", {"op": op})
         return {"outcome": "unspec", "why": str(e)}
     before = snap.snapshot(w.m, with_xyzr=False) if (expect == "reject" or op["op"] == "move") else None
+    if op["op"] == "move" and all(np.isnan(np.asarray(x, dtype=float)[:, :3]).all() for x in w.m.xyzr):
+        # hand-built modules have no coordinates until the session computes them (as it must before vis()); without
+        # them every displacement is NaN + x and the checks below would be vacuous
+        try:
+            with quiet():
+                w.m.compute_xyz()
+            w.bump("probe_compute_xyz_before_move")
+        except Exception:  # noqa: BLE001  (no coordinates then; the move is still confined-checked)
+            w.bump("probe_compute_xyz_failed")
     xyzr_before = [np.array(x, copy=True) for x in w.m.xyzr] if op["op"] == "move" else None
     raised = None
     if do is not None:
@@ -398,6 +407,14 @@ def apply_op(w, op, index, check=True):
                     same = np.array_equal(np.nan_to_num(x0, nan=-1e9), np.nan_to_num(np.asarray(x1), nan=-1e9))
                     if b not in moved_branches and not same:
                         w.violate("mutation_confined", f"move through a view changed xyzr of branch {b} outside the view", index)
+                    if b in moved_branches:
+                        # every branch with a compartment in the view is displaced as a whole by (x, y, z); radii stay
+                        want = np.array(x0, dtype=float, copy=True)
+                        want[:, :3] += np.asarray(op["xyz"], dtype=float)
+                        got = np.asarray(x1, dtype=float)
+                        if got.shape != want.shape or not np.allclose(np.nan_to_num(got, nan=-1e9), np.nan_to_num(want, nan=-1e9), rtol=0, atol=1e-9):
+                            w.violate("mutation_confined", f"move({op['xyz']}) through a view holding compartments of branch {b}: its xyzr moved by "
+                                      f"{np.nan_to_num(got[:, :3] - x0[:, :3]).max(axis=0).tolist() if got.shape == want.shape else 'another shape'}", index)
             if check:
                 d = conform(w.ref, w.m)
                 if d:
